@@ -221,16 +221,24 @@ def run(ctx):
     ctx.assume("receivers are fed complete packets; end of the scripted stream is EOF (b'' from recv)")
     ctx.assume("compression context is re-created at every key exchange (RFC 4253 6.2) in the reference")
     if ctx.quick:
-        ctx.explore(case_strategy(True, exclude_stale=excl), lambda c: execute(ctx, c), ctx.scale(1100, 0))
+        ctx.explore(case_strategy(True, exclude_stale=excl), lambda c: execute(ctx, c), ctx.scale(700, 0))
     else:
         triples = [(c, m, z) for c in pkt.CIPHERS for m in pkt.MACS for z in pkt.COMPRESSIONS]
         mine = [t for i, t in enumerate(triples) if i % ctx.nworkers == ctx.worker]
-        per = max(40, 3300 // max(1, len(mine)))
-        for i, t in enumerate(mine):
-            before = ctx._last_fail
-            ctx.explore(case_strategy(False, first_c2s=t, exclude_stale=excl), lambda c: execute(ctx, c), per, seed_offset=1 + triples.index(t))
-            if ctx._last_fail is not before and ctx.unknown:
-                break  # an unlisted violation was found and shrunk; do not shrink it again for every triple
+        # pass 1 guarantees >= 40 cases with every triple as the first c2s suite even if the wall-clock
+        # budget is hit later; pass 2 spends the rest of the per-worker case count
+        rest = max(0, ctx.scale(0, 6000) // max(1, len(mine)) - 40)
+        stop = False
+        for rnd, per in ((0, 40), (1, rest)):
+            for t in mine:
+                if stop or per <= 0 or ctx.out_of_time():
+                    break
+                before = ctx._last_fail
+                ctx.explore(
+                    case_strategy(False, first_c2s=t, exclude_stale=excl), lambda c: execute(ctx, c), per, seed_offset=1 + triples.index(t) + 1000 * rnd
+                )
+                if ctx._last_fail is not before and ctx.unknown:
+                    stop = True  # an unlisted violation was found and shrunk; do not shrink it again for every triple
     if ctx.quick:  # (per-worker numbers would be summed by the merger; thorough has the class histogram)
         cls = ctx.classes
         ctx.note("min_cases_per_cipher", "%d" % min(cls.get("cipher:" + c, 0) for c in pkt.CIPHERS))
